@@ -29,6 +29,8 @@ struct Gate {
     released: HashSet<i32>,
     spawned: usize,
     finished: usize,
+    spawned_by_version: std::collections::HashMap<i32, usize>,
+    finished_by_version: std::collections::HashMap<i32, usize>,
 }
 
 static GATE: Mutex<Option<Gate>> = Mutex::new(None);
@@ -50,7 +52,10 @@ pub(crate) struct Gated<T> {
 
 impl<T> Gated<T> {
     pub(crate) fn new(inner: T, version: i32) -> Self {
-        with_gate(|g| g.spawned += 1);
+        with_gate(|g| {
+            g.spawned += 1;
+            *g.spawned_by_version.entry(version).or_default() += 1;
+        });
         Self { inner, version, passed: std::sync::atomic::AtomicBool::new(false) }
     }
 }
@@ -74,7 +79,11 @@ impl<T> std::ops::Deref for Gated<T> {
 
 impl<T> Drop for Gated<T> {
     fn drop(&mut self) {
-        with_gate(|g| g.finished += 1);
+        let version = self.version;
+        with_gate(|g| {
+            g.finished += 1;
+            *g.finished_by_version.entry(version).or_default() += 1;
+        });
         GATE_CV.notify_all();
     }
 }
@@ -213,24 +222,25 @@ pub(crate) fn run() -> Result<(), Box<dyn std::error::Error>> {
                 json!({"ok": true})
             }
             "release" => {
+                // lets the analyses of this document version run and waits until they have
+                // finished, so that the harness fully owns the order of completion
                 let version = cmd["version"].as_i64().unwrap_or(0) as i32;
-                // wait until the released analysis (if one is pending) has finished, so that the
-                // harness fully owns the order of completion
-                let before = with_gate(|g| {
+                with_gate(|g| {
                     g.released.insert(version);
-                    g.finished
                 });
                 GATE_CV.notify_all();
-                let wait_for = cmd["wait_finished"].as_u64().map(|n| n as usize);
-                if let Some(n) = wait_for {
-                    let mut g = GATE.lock().unwrap_or_else(|e| e.into_inner());
-                    let deadline = std::time::Instant::now() + std::time::Duration::from_secs(60);
-                    while g.get_or_insert_with(Gate::default).finished < before + n && std::time::Instant::now() < deadline {
-                        let (ng, _) = GATE_CV.wait_timeout(g, std::time::Duration::from_millis(200)).unwrap_or_else(|e| e.into_inner());
-                        g = ng;
+                let mut g = GATE.lock().unwrap_or_else(|e| e.into_inner());
+                let deadline = std::time::Instant::now() + std::time::Duration::from_secs(60);
+                loop {
+                    let gate = g.get_or_insert_with(Gate::default);
+                    let spawned = gate.spawned_by_version.get(&version).copied().unwrap_or(0);
+                    let finished = gate.finished_by_version.get(&version).copied().unwrap_or(0);
+                    if finished >= spawned || std::time::Instant::now() > deadline {
+                        break json!({"ok": true, "analyses": spawned, "finished": finished});
                     }
+                    let (ng, _) = GATE_CV.wait_timeout(g, std::time::Duration::from_millis(100)).unwrap_or_else(|e| e.into_inner());
+                    g = ng;
                 }
-                json!({"ok": true})
             }
             "wait_idle" => {
                 let mut g = GATE.lock().unwrap_or_else(|e| e.into_inner());
